@@ -1663,4 +1663,327 @@ theorem variant_post_lt (s : State) (h : inv s = true) (hsc : inScope s = true) 
           (by omega) hM
         omega
 
+
+/-! ### no scaling event arises on the rolling path -/
+
+/-- an active RS does not carry a stale desired-replicas annotation -/
+def NoEv (R : Int) (r : RS) : Prop := 0 < r.spec → ∀ d, r.desired = some d → d = R
+
+theorem isScalingEvent_false_iff (s : State) :
+    isScalingEvent s = false ↔ ∀ r ∈ s.olds ++ s.new.toList, NoEv s.replicas r := by
+  simp only [isScalingEvent, List.any_eq_false, active, List.mem_filter, decide_eq_true_eq, NoEv]
+  constructor
+  · intro h r hr hpos d hd
+    have := h r ⟨hr, hpos⟩
+    simp only [hd] at this
+    simpa using this
+  · intro h r hr
+    have := h r hr.1 hr.2
+    cases hd : r.desired with
+    | none => simp
+    | some d => simp [this d hd]
+
+theorem NoEv_stable (s : State) : WriteStable s (NoEv s.replicas) := by
+  intro r n _ _ d hd
+  simp only [Option.some.injEq] at hd
+  exact hd.symm
+
+/-- any write-stable predicate that ignores the revision and holds for a created RS survives a rolling sync -/
+theorem rolling_stable (s : State) (P : RS → Prop) (hP : WriteStable s P)
+    (hrev : ∀ r v, P r → P { r with revision := v })
+    (hcr : ∀ n v, P { idx := -1, name := createdName, created := s.now, revision := v, spec := n, pods := 0,
+                      avail := 0, desired := some s.replicas, maxAnno := some (s.replicas + maxSurgeV s) })
+    (holds : ∀ r ∈ s.olds, P r) (hnew : ∀ r, s.new = some r → P r) :
+    (∀ r ∈ (rolloutRolling s).olds, P r) ∧ (∀ r, (rolloutRolling s).new = some r → P r) := by
+  have hnw : ∃ nw w, getNewRS s true = (some nw, w) ∧ P nw := by
+    unfold getNewRS
+    cases hn : s.new with
+    | none => exact ⟨_, _, rfl, hcr _ _⟩
+    | some r => exact ⟨_, _, rfl, hrev r _ (hnew r hn)⟩
+  obtain ⟨nw, w, hg, ha⟩ := hnw
+  unfold rolloutRolling
+  rw [hg]
+  simp only []
+  split
+  · refine ⟨holds, ?_⟩
+    intro r hr
+    simp only [Option.some.injEq] at hr
+    rw [← hr]
+    unfold reconcileNew
+    split
+    · exact ha
+    · split
+      · exact scaleAndRecord_stable hP nw _ ha
+      · exact scaleAndRecord_stable hP nw _ ha
+  · refine ⟨reconcileOld_all s _ hP _ _ holds, ?_⟩
+    intro r hr
+    simp only [Option.some.injEq] at hr
+    rw [← hr]; exact ha
+
+theorem inScope_post (s : State) (hsc : inScope s = true) : inScope (post s) = true := by
+  have hsc' := hsc
+  simp only [inScope, Bool.and_eq_true, Bool.not_eq_true'] at hsc'
+  obtain ⟨⟨hd, hp⟩, he⟩ := hsc'
+  have hall := (isScalingEvent_false_iff s).mp he
+  have hr := rolling_stable s (NoEv s.replicas) (NoEv_stable s)
+    (fun r v h => h) (fun n v _ d hd => by simp only [Option.some.injEq] at hd; exact hd.symm)
+    (fun r hr => hall r (List.mem_append.mpr (Or.inl hr)))
+    (fun r hr => hall r (List.mem_append.mpr (Or.inr (by simp [hr]))))
+  have he' : isScalingEvent (post s) = false := by
+    rw [isScalingEvent_false_iff]
+    have e1 : (post s).olds = (rolloutRolling s).olds := by simp only [post, sync_inScope s hsc]
+    have e2 : (post s).new = (rolloutRolling s).new := by simp only [post, sync_inScope s hsc]
+    have e3 : (post s).replicas = s.replicas := rfl
+    rw [e1, e2, e3]
+    intro r hmem
+    rcases List.mem_append.mp hmem with h | h
+    · exact hr.1 r h
+    · cases hn : (rolloutRolling s).new with
+      | none => rw [hn] at h; simp at h
+      | some x =>
+        rw [hn] at h; simp at h
+        rw [h]; exact hr.2 x hn
+  simp only [inScope, Bool.and_eq_true, Bool.not_eq_true']
+  exact ⟨⟨hd, hp⟩, he'⟩
+
+theorem live_elim (s : State) (h : live s = true) :
+    inv s = true ∧ inScope s = true ∧ covers s = true ∧ cfgLive s = true := by
+  simp only [live, Bool.and_eq_true] at h
+  exact ⟨h.1.1.1, h.1.1.2, h.1.2, h.2⟩
+
+theorem live_post (s : State) (h : live s = true) : live (post s) = true := by
+  obtain ⟨h1, h2, h3, h4⟩ := live_elim s h
+  have a := inv_post s h1
+  have b := inScope_post s h2
+  have c : covers (post s) = covers s := rfl
+  have d : cfgLive (post s) = cfgLive s := rfl
+  simp only [live, a, b, c, d, h3, h4, Bool.and_self]
+
+
+/-! ### environment steps -/
+
+/-- pointwise admissible status moves of a list of RSs -/
+inductive EnvList : List RS → List RS → Prop
+  | nil : EnvList [] []
+  | cons {a b : RS} {l l' : List RS} : envOk a b = true → EnvList l l' → EnvList (a :: l) (b :: l')
+
+/-- an environment step: the status of every RS moves admissibly (`envOk`: pods toward spec,
+    availability anywhere within pods); specs, annotations and the deployment are untouched -/
+def EnvStep (s t : State) : Prop :=
+  t = { s with new := t.new, olds := t.olds } ∧
+  EnvList s.olds t.olds ∧
+  (match s.new, t.new with
+    | none, none => True
+    | some r, some r' => envOk r r' = true
+    | _, _ => False)
+
+theorem envOk_elim (r r' : RS) (h : envOk r r' = true) :
+    r'.spec = r.spec ∧ r'.desired = r.desired ∧ r'.maxAnno = r.maxAnno ∧ 0 ≤ r'.avail ∧ r'.avail ≤ r'.pods := by
+  simp only [envOk, Bool.and_eq_true, beq_iff_eq, decide_eq_true_eq] at h
+  obtain ⟨⟨⟨e, h1⟩, h2⟩, _⟩ := h
+  refine ⟨?_, ?_, ?_, h1, h2⟩ <;> (rw [e])
+
+theorem forall2_env {l l' : List RS} (h : EnvList l l') :
+    sumSpec l' = sumSpec l ∧ (∀ r' ∈ l', ∃ r ∈ l, envOk r r' = true) := by
+  induction h with
+  | nil => simp [sumSpec]
+  | @cons a b l₁ l₂ hh _ ih =>
+    have := (envOk_elim a b hh).1
+    constructor
+    · simp only [sumSpec, sumBy_cons] at *; omega
+    · intro r' hr'
+      simp only [List.mem_cons] at hr'
+      rcases hr' with e | e
+      · exact ⟨a, by simp, by rw [e]; exact hh⟩
+      · obtain ⟨r, hr, he⟩ := ih.2 r' e
+        exact ⟨r, by simp [hr], he⟩
+
+theorem env_Q (r r' : RS) (h : envOk r r' = true) (hq : Q r) : Q r' := by
+  obtain ⟨e1, _, e3, a1, a2⟩ := envOk_elim r r' h
+  obtain ⟨q1, q2⟩ := hq
+  rw [rsOk_iff] at q1
+  constructor
+  · rw [rsOk_iff]; omega
+  · simpa [annoOk, e3] using q2
+
+theorem env_NoEv (R : Int) (r r' : RS) (h : envOk r r' = true) (hq : NoEv R r) : NoEv R r' := by
+  obtain ⟨e1, e2, _⟩ := envOk_elim r r' h
+  intro hp d hd
+  exact hq (by omega) d (by rw [← e2]; exact hd)
+
+theorem env_new {s t : State} (h : EnvStep s t) :
+    (∀ r', t.new = some r' → ∃ r, s.new = some r ∧ envOk r r' = true) ∧ (s.new = none ↔ t.new = none) := by
+  obtain ⟨_, _, h3⟩ := h
+  cases hs : s.new with
+  | none =>
+    cases ht : t.new with
+    | none => simp
+    | some b => rw [hs, ht] at h3; exact absurd h3 (by simp)
+  | some a =>
+    cases ht : t.new with
+    | none => rw [hs, ht] at h3; exact absurd h3 (by simp)
+    | some b =>
+      rw [hs, ht] at h3
+      refine ⟨?_, by simp⟩
+      intro r' hr'; simp only [Option.some.injEq] at hr'
+      exact ⟨a, rfl, by rw [← hr']; exact h3⟩
+
+theorem env_live (s t : State) (hl : live s = true) (h : EnvStep s t) : live t = true := by
+  obtain ⟨h1, h2, h3, h4⟩ := live_elim s hl
+  have hcfg := h.1
+  obtain ⟨f1, f2⟩ := forall2_env h.2.1
+  obtain ⟨n1, n2⟩ := env_new h
+  obtain ⟨q1, q2⟩ := Q_all_of_inv s h1
+  have e1 : t.replicas = s.replicas := by rw [hcfg]
+  have e2 : t.maxSurge = s.maxSurge := by rw [hcfg]
+  have e3 : t.maxUnavailable = s.maxUnavailable := by rw [hcfg]
+  have e4 : t.statusReplicas = s.statusReplicas := by rw [hcfg]
+  have e5 : t.deleting = s.deleting := by rw [hcfg]
+  have e6 : t.paused = s.paused := by rw [hcfg]
+  have e7 : t.partition = s.partition := by rw [hcfg]
+  have e8 : t.rolling = s.rolling := by rw [hcfg]
+  have hinv : inv t = true := by
+    apply inv_of_parts s t h1 e1 e2 e3
+    · intro r' hr'
+      obtain ⟨r, hr, he⟩ := f2 r' hr'
+      exact env_Q r r' he (q1 r hr)
+    · intro r' hr'
+      obtain ⟨r, hr, he⟩ := n1 r' hr'
+      exact env_Q r r' he (q2 r hr)
+    · rw [e4]; exact (inv_elim s h1).2.2.2.2.2.1
+  have hsc' := h2
+  simp only [inScope, Bool.and_eq_true, Bool.not_eq_true'] at hsc'
+  have hall := (isScalingEvent_false_iff s).mp hsc'.2
+  have hev : isScalingEvent t = false := by
+    rw [isScalingEvent_false_iff, e1]
+    intro r' hmem
+    rcases List.mem_append.mp hmem with hm | hm
+    · obtain ⟨r, hr, he⟩ := f2 r' hm
+      exact env_NoEv _ r r' he (hall r (List.mem_append.mpr (Or.inl hr)))
+    · cases hn : t.new with
+      | none => rw [hn] at hm; simp at hm
+      | some x =>
+        rw [hn] at hm; simp at hm
+        obtain ⟨r, hr, he⟩ := n1 x hn
+        rw [hm]
+        exact env_NoEv _ r x he (hall r (List.mem_append.mpr (Or.inr (by simp [hr]))))
+  have hsc : inScope t = true := by
+    simp only [inScope, Bool.and_eq_true, Bool.not_eq_true', e5, e6]
+    exact ⟨hsc'.1, hev⟩
+  have hcov : covers t = true := by
+    simp only [covers, limit, e1, e7] at *; exact h3
+  have hlive : cfgLive t = true := by
+    simp only [cfgLive, e1, e2, e3, e8] at *; exact h4
+  simp only [live, hinv, hsc, hcov, hlive, Bool.and_self]
+
+theorem env_variant (s t : State) (h : EnvStep s t) : variant t = variant s := by
+  obtain ⟨f1, _⟩ := forall2_env h.2.1
+  obtain ⟨n1, n2⟩ := env_new h
+  have e1 : t.replicas = s.replicas := by rw [h.1]
+  simp only [variant, oldTotal, f1, e1]
+  cases ht : t.new with
+  | none => rw [n2.mpr ht]
+  | some r' =>
+    obtain ⟨r, hr, he⟩ := n1 r' ht
+    rw [hr]
+    simp only [(envOk_elim r r' he).1]
+
+
+theorem envOk_settle (r : RS) (h : rsOk r = true) : envOk r (settle r) = true := by
+  rw [rsOk_iff] at h
+  have e : (settle r == { r with pods := (settle r).pods, avail := (settle r).avail }) = true := by
+    simp [settle]
+  have p1 : (settle r).pods = r.spec := rfl
+  have p2 : (settle r).avail = r.spec := rfl
+  unfold envOk
+  rw [e, p1, p2]
+  simp only [Bool.true_and, Bool.and_eq_true, Bool.or_eq_true, decide_eq_true_eq]
+  omega
+
+theorem envList_settle (l : List RS) (h : ∀ r ∈ l, rsOk r = true) : EnvList l (l.map settle) := by
+  induction l with
+  | nil => exact EnvList.nil
+  | cons r rs ih =>
+    exact EnvList.cons (envOk_settle r (h r (by simp))) (ih (fun x hx => h x (by simp [hx])))
+
+theorem envAll_step (s : State) (h : inv s = true) : EnvStep s (envAll s) := by
+  refine ⟨rfl, envList_settle s.olds (inv_olds s h), ?_⟩
+  simp only [envAll]
+  cases hn : s.new with
+  | none => simp
+  | some r => simpa using envOk_settle r (inv_new s h r hn)
+
+theorem settled_envAll (s : State) : settled (envAll s) = true := by
+  simp only [settled, envAll, List.all_eq_true, List.mem_append, List.mem_map, Bool.and_eq_true, beq_iff_eq]
+  intro r hr
+  rcases hr with ⟨x, _, e⟩ | hr
+  · rw [← e]; simp [settle]
+  · cases hn : s.new with
+    | none => rw [hn] at hr; simp at hr
+    | some x => rw [hn] at hr; simp at hr; rw [hr]; simp [settle]
+
+theorem variant_zero_iff (s : State) (h : inv s = true) : variant s = 0 ↔ final s = true := by
+  have ho := sumSpec_nonneg (inv_olds s h)
+  simp only [variant, final, oldTotal]
+  cases hn : s.new with
+  | none => simp
+  | some r =>
+    simp only [Bool.and_eq_true, beq_iff_eq]
+    constructor
+    · intro hv; constructor <;> omega
+    · intro hv; omega
+
+theorem live_round (s : State) (h : live s = true) :
+    live (round s) = true ∧ settled (round s) = true ∧ variant (round s) ≤ variant s := by
+  have h1 := live_post s h
+  obtain ⟨i1, _, _, _⟩ := live_elim _ h1
+  obtain ⟨i0, sc0, cv0, _⟩ := live_elim _ h
+  have st := envAll_step (post s) i1
+  refine ⟨env_live _ _ h1 st, settled_envAll _, ?_⟩
+  have := env_variant _ _ st
+  have := (variant_post_le s i0 sc0 cv0).1
+  simp only [round]; omega
+
+theorem round_lt (s : State) (h : live s = true) (hs : settled s = true) (hf : final s = false) :
+    variant (round s) < variant s := by
+  obtain ⟨i0, sc0, cv0, l0⟩ := live_elim _ h
+  obtain ⟨i1, _, _, _⟩ := live_elim _ (live_post s h)
+  have := env_variant _ _ (envAll_step (post s) i1)
+  have := variant_post_lt s i0 sc0 cv0 l0 hs hf
+  simp only [round]; omega
+
+theorem rounds_converge : ∀ (n : Nat) (s : State), live s = true → settled s = true → variant s ≤ n →
+    final (rounds n s) = true := by
+  intro n
+  induction n with
+  | zero =>
+    intro s h _ hv
+    exact (variant_zero_iff s (live_elim s h).1).mp (by omega)
+  | succ n ih =>
+    intro s h hs hv
+    obtain ⟨l1, s1, v1⟩ := live_round s h
+    have hle : variant (round s) ≤ n := by
+      cases hf : final s with
+      | true =>
+        have := (variant_zero_iff s (live_elim s h).1).mpr hf
+        omega
+      | false => have := round_lt s h hs hf; omega
+    exact ih (round s) l1 s1 hle
+
+
+theorem env_inv (s t : State) (h1 : inv s = true) (h : EnvStep s t) : inv t = true := by
+  have hcfg := h.1
+  obtain ⟨_, f2⟩ := forall2_env h.2.1
+  obtain ⟨n1, _⟩ := env_new h
+  obtain ⟨q1, q2⟩ := Q_all_of_inv s h1
+  apply inv_of_parts s t h1 (by rw [hcfg]) (by rw [hcfg]) (by rw [hcfg])
+  · intro r' hr'
+    obtain ⟨r, hr, he⟩ := f2 r' hr'
+    exact env_Q r r' he (q1 r hr)
+  · intro r' hr'
+    obtain ⟨r, hr, he⟩ := n1 r' hr'
+    exact env_Q r r' he (q2 r hr)
+  · have : t.statusReplicas = s.statusReplicas := by rw [hcfg]
+    rw [this]; exact (inv_elim s h1).2.2.2.2.2.1
+
 end RV.DepSync
